@@ -199,4 +199,33 @@ theorem spent_token_revoked_any_entry (allowed : Bool) :
 spent token — and the leases issued under it — in place -/
 theorem spent_token_denied_seal_cex : (sealTailDeniedReturnsEarly true false).revoked = false := by decide
 
+/-! ### writers of the entry that are not uses -/
+
+/-- **A rewrite of the entry that is not a use never gives uses back**: in every execution made of uses and of
+orphanings that re-read under the token's lock, the stored count is the initial count minus the uses spent. -/
+theorem non_use_rewrite_preserves_count (n : Nat) (l : List EntryAct)
+    (h : ∀ a ∈ l, a = .use ∨ a = .orphan) :
+    (entryRun (n, none) l).1 = n - (l.filter (· == .use)).length := by
+  unfold entryRun
+  suffices H : ∀ (s : Nat × Option Nat), (l.foldl entryStep s).1 = s.1 - (l.filter (· == .use)).length from H (n, none)
+  induction l with
+  | nil => intro s; simp
+  | cons a r ih =>
+    intro s
+    have ha := h a (List.mem_cons_self ..)
+    have hr : ∀ b ∈ r, b = .use ∨ b = .orphan := fun b hb => h b (List.mem_cons_of_mem _ hb)
+    simp only [List.foldl_cons]
+    rw [ih hr]
+    rcases ha with rfl | rfl
+    · have : (EntryAct.use == EntryAct.use) = true := by decide
+      simp only [entryStep, List.filter, this, List.length_cons]; omega
+    · have : (EntryAct.orphan == EntryAct.use) = false := by decide
+      simp only [entryStep, List.filter, this]
+
+/-- **Finding F82 (repaired)**: with the entry read outside the lock, a use that falls between the orphaner's read and
+its write is overwritten by the stale copy: a token of 3 uses has 3 left after one was spent. -/
+theorem stale_orphaning_rewrite_cex :
+    (entryRun (3, none) [.orphanRead, .use, .orphanWrite]).1 = 3 ∧
+    (entryRun (3, none) [.orphan, .use]).1 = 2 ∧ (entryRun (3, none) [.use, .orphan]).1 = 2 := by decide
+
 end C19
